@@ -184,6 +184,36 @@ def run(ctx, prog, res):
         ok = len(bs) == 1 and (USV, "UniqueSortedVec", "0") in flow.origin_fields(f, bs[0]["args"][0]) and flow.root_params(f, bs[0]["args"][1]) == {2}
         r4.check(ok, {"fn": f.id, "binary_search_on": "self.0", "needle": "param x"}, "C20.R4:%s" % name,
                  "%s does not binary-search the inner vector for its argument" % name, lib.where_of(f))
+    # a membership test may answer `false` without searching only for the empty vector or after an
+    # ordering comparison that excludes the needle
+    cf = prog.require_fn(USV + "::<T>::contains")
+    n_false = 0
+    for bb, b in cf.live_blocks():
+        for st in b["stmts"]:
+            if not (st["k"] == "assign" and st["dst"]["l"] == 0 and not st["dst"]["p"] and st["rv"]["k"] == "use" and st["rv"]["op"].get("k") == "const" and st["rv"]["op"].get("bool") is False):
+                continue
+            n_false += 1
+            justified = False
+            for sbb, _ in cf.live_blocks():
+                d = flow.bool_switch_of(cf, sbb)
+                if not d or not (cf.dominates(d["true_bb"], bb) or cf.dominates(d["false_bb"], bb)):
+                    continue
+                a_, b_ = flow.shape(cf, d["a"], depth=5), flow.shape(cf, d["b"], depth=5)
+                if d["node"]["k"] == "call" and ("p2" in a_ or "p2" in b_) and d["op"] in ("Lt", "Le", "Gt", "Ge"):
+                    justified = True  # ordering comparison with the needle
+                lens = [x for x in (a_, b_) if re.search(r"len|PtrMetadata|Len", x)]
+                consts = [x for x in (a_, b_) if re.fullmatch(r"\d+", x)]
+                if lens and consts:
+                    c_ = int(consts[0])
+                    op_ = d["op"] if re.fullmatch(r"\d+", b_) else {"Lt": "Gt", "Gt": "Lt", "Le": "Ge", "Ge": "Le"}.get(d["op"], d["op"])
+                    on_true = cf.dominates(d["true_bb"], bb)
+                    # which lengths reach this block?
+                    empty_only = (op_ == "Eq" and c_ == 0 and on_true) or (op_ == "Ne" and c_ == 0 and not on_true) or (op_ == "Lt" and c_ == 1 and on_true) or (op_ == "Ge" and c_ == 1 and not on_true) or (op_ == "Gt" and c_ == 0 and not on_true) or (op_ == "Le" and c_ == 0 and on_true)
+                    if empty_only:
+                        justified = True
+            r4.check(justified, {"fn": cf.id, "constant_false": "only for the empty vector or after an ordering comparison"}, "C20.R4:contains:false",
+                     "contains answers `false` without searching on a path that is neither `the vector is empty` nor guarded by an ordering comparison with the needle (e.g. a slice pattern that does not match one-element vectors)", lib.where_of(cf, st))
+    r4.ok({"fn": cf.id, "constant_false_answers": n_false})
     f = prog.require_fn(USV + "::<T>::find_first_following")
     gets = [t for _, t in f.calls() if flow.call_name(t).endswith("<impl [T]>::get")]
     ok = False
